@@ -212,10 +212,16 @@ class Ctx:
     def unsure(self, rule: str, what: str, detail: str, node: ast.AST | None = None) -> None:
         self.res.undecide(rule, self.base + what, detail, self.M.where(node) if node is not None else where(self.draw, self.draw.node))
 
+    def roots(self) -> list:
+        """draw() and every helper flattened into its view - also those that are only reached through a table of method names
+        (`getattr(self, row.converter)(...)`), which the call graph does not follow"""
+        inlined = set(getattr(self.M.V, "inlined", []))
+        return [self.draw, *[f for f in self.repo.all_functions() if f.fq in inlined and f.fq != self.draw.fq]]
+
     # ------------------------------------------------------------------ R1 (lint part)
     def lint(self) -> None:
         """F-NAME sites in everything reachable from draw.  `unknown` verdicts are kept back: the label analysis may explain them."""
-        fq = {f.fq for f in reachable_funcs(self.repo, [self.draw], byname=False)}
+        fq = {f.fq for f in reachable_funcs(self.repo, self.roots(), byname=False)}
         # the public name-list helpers (get_parent_modules) are C14.R2's business, not part of the label mechanism
         sites = [s for s in names.scan(self.repo) if s.fi.fq in fq and s.fi.name not in VOCABULARY]
         # prefix tests and cuts are judged again by the label analysis, which reads the whole match condition (a raw prefix test next
@@ -489,7 +495,7 @@ class Ctx:
     # ------------------------------------------------------------------ R6
     def stateless(self) -> None:
         E = Effects(self.repo, types_of(self.repo))
-        funcs = list(reachable_funcs(self.repo, [self.draw], byname=False))
+        funcs = list(reachable_funcs(self.repo, self.roots(), byname=False))
         bad = []
         for f in funcs:
             for w in E.writes(f):
